@@ -2866,9 +2866,9 @@ class PGPKeyring(collections_abc.Container, collections_abc.Iterable, collection
                 if uid.email:
                     self._add_alias(uid.email, pkid)
 
-            # subkeys
-            for subkey in pgpkey.subkeys.values():
-                self._add_key(subkey)
+        # subkeys: also those of a key that is already loaded, one of them may have been unloaded on its own
+        for subkey in pgpkey.subkeys.values():
+            self._add_key(subkey)
 
     def load(self, *args):
         r"""
